@@ -22,7 +22,8 @@ PROPERTY = "C12"
 LEVEL = "exploration"
 RULE = ("random histories (<= 20 steps, thorough <= 60) over S2F33 / S2F35 / S2F37 / S6F15 / trigger / value update with RPTID in "
         "{1,2,3,'r'}, CEID in {1,2,3,20,999(unknown)}, VID in {1002,10,30,77(unknown)}, including duplicates inside one "
-        "request, deletion of linked reports, unknown ids, empty lists and mixed define+delete; distinct by request sequence; "
+        "request, deletion of linked reports, unknown ids, empty lists, mixed define+delete and multi-entry requests with the "
+        "offending entry first, in the middle or last; distinct by request sequence; "
         "non-trivial when at least one define and one link were accepted")
 ASSUMPTIONS = ["where E5 leaves a choice (same RPTID twice in one S2F33, linking further reports to an already linked CEID, the "
                "same report twice in one link request, S2F37 with known and unknown CEIDs, enabling an event without links, "
